@@ -397,4 +397,165 @@ example : refReduce [0, 2] false [2, 3, 4] = some [3] := by decide
 example : refReduce [1] true [2, 3, 4] = some [2, 1, 4] := by decide
 example : transferReduce (.rts) false ⟨.boundedDim 3, .atMost 24⟩ = some ⟨.boundedDim 2, .atMost 24⟩ := by decide
 
+/-! ### broadcasting binary views (ufunc with two array operands) -/
+
+/-- the kind combinations on which `resolve_optype<broadcast_shape_t>` is sound: an operand of CLIPPED shape is only
+    combined with an operand whose shape type is constant or clipped (otherwise the maxima of the clipped operand are
+    read as if they were its extents: `ufunc2_clipped_runtime_counterexample`) -/
+def Ufunc2Dom (i j : SInfo) : Prop :=
+  (∀ m, i.shape = .clipped m → j.shape.cvalue ≠ none) ∧ (∀ m, j.shape = .clipped m → i.shape.cvalue ≠ none)
+
+theorem cvalue_leAll {A : ShapeK} {a va : Shape} (hA : A.γ a) (hc : A.cvalue = some va) : LeAll a va := by
+  cases A <;> simp only [ShapeK.cvalue, Option.some.injEq] at hc <;> try (simp at hc)
+  · subst hc; simp only [ShapeK.γ] at hA; subst hA; exact LeAll.refl _
+  · subst hc; exact hA
+
+theorem bcastStaticTuple_sound {va b t : Shape} {lb : Nat} (hl : va.length ≥ lb) (hb : b.length = lb)
+    (hr : refBroadcast va b = some t) : (bcastStaticTuple va (.fixedDim (max va.length lb))).γ t := by
+  unfold bcastStaticTuple
+  split
+  · rename_i hall
+    have : t = va := refBroadcast_eq_left (fun x hx => by simpa using List.all_eq_true.mp hall x hx) (by omega) hr
+    subst this; exact LeAll.refl _
+  · simp only [ShapeK.γ]; rw [refBroadcast_length hr, hb]
+
+theorem bcastStaticTuple_sound' {a vb t : Shape} {la : Nat} (hl : vb.length ≥ la) (ha : a.length = la)
+    (hr : refBroadcast a vb = some t) : (bcastStaticTuple vb (.fixedDim (max la vb.length))).γ t := by
+  unfold bcastStaticTuple
+  split
+  · rename_i hall
+    have : t = vb := refBroadcast_eq_right (fun x hx => by simpa using List.all_eq_true.mp hall x hx) (by omega) hr
+    subst this; exact LeAll.refl _
+  · simp only [ShapeK.γ]; rw [refBroadcast_length hr, ha]
+
+theorem bcastStaticArray_sound {va b t : Shape} {bb : Nat} (hp : Pos va) (hl : va.length ≥ bb) (hb : b.length ≤ bb)
+    (hr : refBroadcast va b = some t) : (bcastStaticArray va (.boundedDim (max va.length bb))).γ t := by
+  unfold bcastStaticArray
+  split
+  · simp only [ShapeK.γ]; rw [refBroadcast_length hr]; omega
+  · rename_i hmin
+    have hgt := all_gt_one_of_min hp (by simpa using hmin)
+    have : t = va := refBroadcast_eq_left hgt (by omega) hr
+    subst this
+    exact leAll_replicate (fun x hx => (le_foldl_max t 0).2 x hx)
+
+theorem bcastStaticArray_sound' {a vb t : Shape} {ba : Nat} (hp : Pos vb) (hl : vb.length ≥ ba) (ha : a.length ≤ ba)
+    (hr : refBroadcast a vb = some t) : (bcastStaticArray vb (.boundedDim (max vb.length ba))).γ t := by
+  unfold bcastStaticArray
+  split
+  · simp only [ShapeK.γ]; rw [refBroadcast_length hr]; omega
+  · rename_i hmin
+    have hgt := all_gt_one_of_min hp (by simpa using hmin)
+    have : t = vb := refBroadcast_eq_right hgt (by omega) hr
+    subst this
+    exact leAll_replicate (fun x hx => (le_foldl_max t 0).2 x hx)
+
+theorem broadcastShapeK_sound {A B k : ShapeK} {a b t : Shape} (hA : A.γ a) (hB : B.γ b) (hpa : Pos a) (hpb : Pos b)
+    (hdomA : ∀ m, A = .clipped m → B.cvalue ≠ none) (hdomB : ∀ m, B = .clipped m → A.cvalue ≠ none)
+    (hr : refBroadcast a b = some t) (hk : broadcastShapeK A B = some k) : k.γ t := by
+  have hlen := refBroadcast_length hr
+  have hLa := lenK_sound hA
+  have hLb := lenK_sound hB
+  unfold broadcastShapeK at hk
+  cases hca : A.cvalue with
+  | some va =>
+    have hlea := cvalue_leAll hA hca
+    cases hcb : B.cvalue with
+    | some vb =>
+      have hleb := cvalue_leAll hB hcb
+      simp only [hca, hcb] at hk
+      cases hrv : refBroadcast va vb with
+      | some r =>
+        simp only [hrv, Option.some.injEq] at hk; subst hk
+        split
+        · rename_i hcc
+          simp only [Bool.and_eq_true] at hcc
+          -- both constant: the run-time shapes ARE the static values
+          have ha : a = va := by cases A <;> simp [ShapeK.isConst] at hcc <;> simp only [ShapeK.cvalue, Option.some.injEq] at hca <;> (subst hca; exact hA)
+          have hb : b = vb := by cases B <;> simp [ShapeK.isConst] at hcc <;> simp only [ShapeK.cvalue, Option.some.injEq] at hcb <;> (subst hcb; exact hB)
+          subst ha hb
+          rw [hr] at hrv; simp only [Option.some.injEq] at hrv; subst hrv; rfl
+        · exact refBroadcast_leAll hlea hleb hr hrv
+      | none =>
+        simp only [hrv] at hk
+        split at hk
+        · simp at hk
+        · simp only [Option.some.injEq] at hk; subst hk
+          simp only [ShapeK.γ]; rw [hlen, hlea.length_eq, hleb.length_eq]
+    | none =>
+      -- A has static values, B is run-time: A must be constant (domain), so a = va
+      have ha : a = va := by
+        cases A with
+        | const l => simp only [ShapeK.cvalue, Option.some.injEq] at hca; subst hca; exact hA
+        | clipped m => exact absurd hcb (hdomA m rfl)
+        | fixedDim n => simp [ShapeK.cvalue] at hca
+        | boundedDim n => simp [ShapeK.cvalue] at hca
+        | dyn => simp [ShapeK.cvalue] at hca
+      subst ha
+      simp only [hca, hcb] at hk
+      cases hlb : B.lenK with
+      | fixed lb =>
+        simp only [hlb, Option.some.injEq] at hk; subst hk
+        simp only [hlb, LenK.γ] at hLb
+        split
+        · rename_i hge; exact bcastStaticTuple_sound hge hLb hr
+        · simp only [ShapeK.γ]; rw [hlen, hLb]
+      | bounded bb =>
+        simp only [hlb, Option.some.injEq] at hk; subst hk
+        simp only [hlb, LenK.γ] at hLb
+        split
+        · rename_i hge; exact bcastStaticArray_sound hpa hge hLb hr
+        · simp only [ShapeK.γ]; rw [hlen]; omega
+      | dyn => simp only [hlb, Option.some.injEq] at hk; subst hk; trivial
+  | none =>
+    cases hcb : B.cvalue with
+    | some vb =>
+      have hb : b = vb := by
+        cases B with
+        | const l => simp only [ShapeK.cvalue, Option.some.injEq] at hcb; subst hcb; exact hB
+        | clipped m => exact absurd hca (hdomB m rfl)
+        | fixedDim n => simp [ShapeK.cvalue] at hcb
+        | boundedDim n => simp [ShapeK.cvalue] at hcb
+        | dyn => simp [ShapeK.cvalue] at hcb
+      subst hb
+      simp only [hca, hcb] at hk
+      cases hla : A.lenK with
+      | fixed la =>
+        simp only [hla, Option.some.injEq] at hk; subst hk
+        simp only [hla, LenK.γ] at hLa
+        split
+        · rename_i hge; exact bcastStaticTuple_sound' hge hLa hr
+        · simp only [ShapeK.γ]; rw [hlen, hLa]
+      | bounded ba =>
+        simp only [hla, Option.some.injEq] at hk; subst hk
+        simp only [hla, LenK.γ] at hLa
+        split
+        · rename_i hge; exact bcastStaticArray_sound' hpb hge hLa hr
+        · simp only [ShapeK.γ]; rw [hlen]; omega
+      | dyn => simp only [hla, Option.some.injEq] at hk; subst hk; trivial
+    | none =>
+      simp only [hca, hcb] at hk
+      cases hla : A.lenK <;> cases hlb : B.lenK <;> simp only [hla, hlb, Option.some.injEq] at hk hLa hLb <;> subst hk <;>
+        simp only [ShapeK.γ, LenK.γ] at * <;> (try omega)
+
+/-- binary broadcasting view (`view::add(a, b)` ...), positive extents, sound kind combinations -/
+theorem ufunc2_static_sound {i j o : SInfo} {a b t : Shape} (hi : i.γ a) (hj : j.γ b) (hpa : Pos a) (hpb : Pos b)
+    (hdom : Ufunc2Dom i j) (hr : refBroadcast a b = some t) (ho : transferUfunc2 i j = some o) : o.γ t := by
+  simp only [transferUfunc2, seen_shape, Option.map_eq_some_iff] at ho
+  obtain ⟨k, hk, rfl⟩ := ho
+  exact ufuncInfo_sound (broadcastShapeK_sound hi.1 hj.1 hpa hpb hdom.1 hdom.2 hr hk) trivial
+
+example : refBroadcast [2, 1] [3] = some [2, 3] := by decide
+example : Ufunc2Dom ⟨.clipped [2, 1], .any⟩ ⟨.const [3], .known 3⟩ := by
+  constructor <;> intro m hm <;> simp [ShapeK.cvalue] at *
+example : transferUfunc2 ⟨.clipped [2, 1], .any⟩ ⟨.const [3], .known 3⟩ = some ⟨.clipped [2, 3], .atMost 6⟩ := by decide
+
+/-- known finding C11.broadcast-clipped-vs-runtime: `add(cl[2,3], fd)` at run-time shapes (1,1) and (3,2): the result
+    (3,2) is not an instance of the inferred clipped bound [2,3] (bounded size 6 happens to hold, the per-axis bound not) -/
+theorem ufunc2_clipped_runtime_counterexample :
+    (⟨.clipped [2, 3], .atMost 6⟩ : SInfo).γ [1, 1] ∧ (⟨.fixedDim 2, .any⟩ : SInfo).γ [3, 2] ∧
+    refBroadcast [1, 1] [3, 2] = some [3, 2] ∧
+    ∃ o, transferUfunc2 ⟨.clipped [2, 3], .atMost 6⟩ ⟨.fixedDim 2, .any⟩ = some o ∧ ¬ o.γ [3, 2] := by
+  refine ⟨by decide, by decide, by decide, ⟨.clipped [2, 3], .atMost 6⟩, by decide, by decide⟩
+
 end NmVerif.Props.C11
